@@ -1,0 +1,211 @@
+//go:build verif
+
+// Machine-checked contracts for package decode (comment-only; read by /verif/govc).
+// Spec functions (valueSize, varintSize, ...) are defined in /verif/spec/wire.smt2.
+package decode
+
+//@ package github.com/basecomplextech/spec/internal/decode
+
+// ---- helpers
+
+//@ func decodeType
+//@   safety[C02]
+//@   ensures len(b) == 0 ==> result0 == 0 && result1 == 0
+//@   ensures len(b) > 0 ==> result0 == b[len(b)-1] && result1 == 1
+
+//@ func decodeSize
+//@   safety[C02]
+//@   let n = sizeFieldSize(mem(b), lo(b), hi(b))
+//@   ensures len(b) > 0 && b[len(b)-1] == 255 ==> result1 == 0 - 1 && result0 == 0
+//@   ensures (len(b) == 0 || b[len(b)-1] != 255) && n < 0 ==> result1 == 0 && result0 == 0
+//@   ensures n >= 1 ==> result1 == n && result0 == varintVal(mem(b), hi(b), n)
+
+//@ func DecodeType
+//@   safety[C02]
+//@   ensures[C02] 0 <= result1 && result1 <= len(b)
+//@   ensures result2 == nil
+//@   ensures len(b) == 0 ==> result0 == 0 && result1 == 0
+//@   ensures len(b) > 0 ==> result0 == b[len(b)-1] && result1 == 1
+
+// ---- size probe
+
+//@ func DecodeTypeSize
+//@   safety[C02]
+//@   let vs = valueSize(mem(b), lo(b), hi(b))
+//@   ensures[C02] 0 <= result1 && result1 <= len(b)
+//@   ensures[C13] len(b) == 0 ==> result0 == 0 && result1 == 0 && result2 == nil
+//@   ensures[C13] len(b) > 0 && result2 == nil ==> result0 == b[len(b)-1] && result1 == vs
+//@   ensures[C13] len(b) > 0 && vs > 0 ==> result2 == nil
+//@   ensures[C13] result2 != nil ==> result1 == 0
+//@   canary[C13] result2 == nil ==> result1 <= 9
+
+// ---- integers
+
+//@ func DecodeInt16
+//@   safety[C02]
+//@   let vs = valueSize(mem(b), lo(b), hi(b))
+//@   let t = b[len(b)-1]
+//@   let m = varintSize(mem(b), lo(b), hi(b) - 1)
+//@   let v = unzigzag(varintVal(mem(b), hi(b) - 1, m))
+//@   ensures[C02] 0 <= result1 && result1 <= len(b)
+//@   ensures[C16] len(b) == 0 ==> result0 == 0 && result1 == 0 && result2 == nil
+//@   ensures[C13] len(b) > 0 && result2 == nil ==> result1 == vs
+//@   ensures[C13] result2 != nil ==> result1 == 0
+//@   ensures[C10] len(b) > 0 && (t == 10 || t == 11) && 1 <= m && m <= 5 && -32768 <= v && v <= 32767 ==> result2 == nil && result0 == v && result1 == m + 1
+//@   ensures[C10] len(b) > 0 && t == 12 && 1 <= m && -32768 <= v && v <= 32767 ==> result2 == nil && result0 == v && result1 == m + 1
+//@   ensures[C10] len(b) > 0 && (v < -32768 || v > 32767) ==> result2 != nil
+//@   ensures[C10] len(b) > 0 && m < 0 ==> result2 != nil
+//@   ensures[C10] len(b) > 0 && t != 10 && t != 11 && t != 12 ==> result2 != nil
+//@   canary[C10] result2 == nil ==> result1 <= 3
+
+//@ func DecodeInt32
+//@   safety[C02]
+//@   let vs = valueSize(mem(b), lo(b), hi(b))
+//@   let t = b[len(b)-1]
+//@   let m = varintSize(mem(b), lo(b), hi(b) - 1)
+//@   let v = unzigzag(varintVal(mem(b), hi(b) - 1, m))
+//@   ensures[C02] 0 <= result1 && result1 <= len(b)
+//@   ensures[C16] len(b) == 0 ==> result0 == 0 && result1 == 0 && result2 == nil
+//@   ensures[C13] len(b) > 0 && result2 == nil ==> result1 == vs
+//@   ensures[C13] result2 != nil ==> result1 == 0
+//@   ensures[C10] len(b) > 0 && (t == 10 || t == 11) && 1 <= m && m <= 5 ==> result2 == nil && result0 == v && result1 == m + 1
+//@   ensures[C10] len(b) > 0 && t == 12 && 1 <= m && -2147483648 <= v && v <= 2147483647 ==> result2 == nil && result0 == v && result1 == m + 1
+//@   ensures[C10] len(b) > 0 && t == 12 && 1 <= m && (v < -2147483648 || v > 2147483647) ==> result2 != nil
+//@   ensures[C10] len(b) > 0 && m < 0 ==> result2 != nil
+//@   ensures[C10] len(b) > 0 && t != 10 && t != 11 && t != 12 ==> result2 != nil
+//@   canary[C10] result2 == nil ==> result1 <= 3
+
+//@ func DecodeInt64
+//@   safety[C02]
+//@   let vs = valueSize(mem(b), lo(b), hi(b))
+//@   let t = b[len(b)-1]
+//@   let m = varintSize(mem(b), lo(b), hi(b) - 1)
+//@   let v = unzigzag(varintVal(mem(b), hi(b) - 1, m))
+//@   ensures[C02] 0 <= result1 && result1 <= len(b)
+//@   ensures[C16] len(b) == 0 ==> result0 == 0 && result1 == 0 && result2 == nil
+//@   ensures[C13] len(b) > 0 && result2 == nil ==> result1 == vs
+//@   ensures[C13] result2 != nil ==> result1 == 0
+//@   ensures[C10] len(b) > 0 && (t == 10 || t == 11) && 1 <= m && m <= 5 ==> result2 == nil && result0 == v && result1 == m + 1
+//@   ensures[C10] len(b) > 0 && t == 12 && 1 <= m ==> result2 == nil && result0 == v && result1 == m + 1
+//@   ensures[C10] len(b) > 0 && m < 0 ==> result2 != nil
+//@   ensures[C10] len(b) > 0 && t != 10 && t != 11 && t != 12 ==> result2 != nil
+//@   canary[C10] result2 == nil ==> result1 <= 5
+
+//@ func DecodeUint16
+//@   safety[C02]
+//@   let vs = valueSize(mem(b), lo(b), hi(b))
+//@   let t = b[len(b)-1]
+//@   let m = varintSize(mem(b), lo(b), hi(b) - 1)
+//@   let v = varintVal(mem(b), hi(b) - 1, m)
+//@   ensures[C02] 0 <= result1 && result1 <= len(b)
+//@   ensures[C16] len(b) == 0 ==> result0 == 0 && result1 == 0 && result2 == nil
+//@   ensures[C13] len(b) > 0 && result2 == nil ==> result1 == vs
+//@   ensures[C13] result2 != nil ==> result1 == 0
+//@   ensures[C10] len(b) > 0 && (t == 20 || t == 21) && 1 <= m && m <= 5 && v <= 65535 ==> result2 == nil && result0 == v && result1 == m + 1
+//@   ensures[C10] len(b) > 0 && t == 22 && 1 <= m && v <= 65535 ==> result2 == nil && result0 == v && result1 == m + 1
+//@   ensures[C10] len(b) > 0 && v > 65535 ==> result2 != nil
+//@   ensures[C10] len(b) > 0 && m < 0 ==> result2 != nil
+//@   ensures[C10] len(b) > 0 && t != 20 && t != 21 && t != 22 ==> result2 != nil
+//@   canary[C10] result2 == nil ==> result1 <= 3
+
+//@ func DecodeUint32
+//@   safety[C02]
+//@   let vs = valueSize(mem(b), lo(b), hi(b))
+//@   let t = b[len(b)-1]
+//@   let m = varintSize(mem(b), lo(b), hi(b) - 1)
+//@   let v = varintVal(mem(b), hi(b) - 1, m)
+//@   ensures[C02] 0 <= result1 && result1 <= len(b)
+//@   ensures[C16] len(b) == 0 ==> result0 == 0 && result1 == 0 && result2 == nil
+//@   ensures[C13] len(b) > 0 && result2 == nil ==> result1 == vs
+//@   ensures[C13] result2 != nil ==> result1 == 0
+//@   ensures[C10] len(b) > 0 && (t == 20 || t == 21) && 1 <= m && m <= 5 ==> result2 == nil && result0 == v && result1 == m + 1
+//@   ensures[C10] len(b) > 0 && t == 22 && 1 <= m && v <= 4294967295 ==> result2 == nil && result0 == v && result1 == m + 1
+//@   ensures[C10] len(b) > 0 && t == 22 && 1 <= m && v > 4294967295 ==> result2 != nil
+//@   ensures[C10] len(b) > 0 && m < 0 ==> result2 != nil
+//@   ensures[C10] len(b) > 0 && t != 20 && t != 21 && t != 22 ==> result2 != nil
+//@   canary[C10] result2 == nil ==> result1 <= 3
+
+//@ func DecodeUint64
+//@   safety[C02]
+//@   let vs = valueSize(mem(b), lo(b), hi(b))
+//@   let t = b[len(b)-1]
+//@   let m = varintSize(mem(b), lo(b), hi(b) - 1)
+//@   let v = varintVal(mem(b), hi(b) - 1, m)
+//@   ensures[C02] 0 <= result1 && result1 <= len(b)
+//@   ensures[C16] len(b) == 0 ==> result0 == 0 && result1 == 0 && result2 == nil
+//@   ensures[C13] len(b) > 0 && result2 == nil ==> result1 == vs
+//@   ensures[C13] result2 != nil ==> result1 == 0
+//@   ensures[C10] len(b) > 0 && (t == 20 || t == 21) && 1 <= m && m <= 5 ==> result2 == nil && result0 == v && result1 == m + 1
+//@   ensures[C10] len(b) > 0 && t == 22 && 1 <= m ==> result2 == nil && result0 == v && result1 == m + 1
+//@   ensures[C10] len(b) > 0 && m < 0 ==> result2 != nil
+//@   ensures[C10] len(b) > 0 && t != 20 && t != 21 && t != 22 ==> result2 != nil
+//@   canary[C10] result2 == nil ==> result1 <= 5
+
+// ---- byte, bool
+
+//@ func DecodeByte
+//@   safety[C02]
+//@   let vs = valueSize(mem(b), lo(b), hi(b))
+//@   ensures[C02] 0 <= result1 && result1 <= len(b)
+//@   ensures[C16] len(b) == 0 ==> result0 == 0 && result1 == 0 && result2 == nil
+//@   ensures[C13] len(b) > 0 && result2 == nil ==> result1 == vs
+//@   ensures[C10] len(b) >= 2 && b[len(b)-1] == 3 ==> result2 == nil && result0 == b[len(b)-2] && result1 == 2
+//@   ensures[C10] len(b) > 0 && (b[len(b)-1] != 3 || len(b) < 2) ==> result2 != nil
+//@   canary[C10] result2 == nil ==> result0 == 0
+
+//@ func DecodeBool
+//@   safety[C02]
+//@   ensures[C02] 0 <= result1 && result1 <= len(b)
+//@   ensures[C16] len(b) == 0 ==> result0 == false && result1 == 0 && result2 == nil
+//@   ensures[C13] len(b) > 0 && (b[len(b)-1] == 1 || b[len(b)-1] == 2) && result2 == nil ==> result1 == valueSize(mem(b), lo(b), hi(b))
+//@   ensures[C10] len(b) > 0 && b[len(b)-1] == 1 ==> result2 == nil && result0 == true && result1 == 1
+//@   ensures[C10] len(b) > 0 && b[len(b)-1] == 2 ==> result2 == nil && result0 == false && result1 == 1
+
+// ---- bytes, string, struct
+
+//@ func decodeBytesData
+//@   safety[C02]
+//@   ensures size <= len(b) ==> result1 == nil && result0 == b[len(b)-size:]
+//@   ensures size > len(b) ==> result1 != nil && len(result0) == 0
+
+//@ func decodeStringData
+//@   safety[C02]
+//@   ensures size <= len(b) ==> result1 == nil && result0 == b[len(b)-size:]
+//@   ensures size > len(b) ==> result1 != nil && len(result0) == 0
+
+//@ func DecodeBytes
+//@   safety[C02]
+//@   let vs = valueSize(mem(b), lo(b), hi(b))
+//@   let m = sizeFieldSize(mem(b), lo(b), hi(b) - 1)
+//@   let ds = varintVal(mem(b), hi(b) - 1, m)
+//@   ensures[C02] 0 <= size && size <= len(b)
+//@   ensures[C02] within(result0, b)
+//@   ensures[C16] len(b) == 0 ==> len(result0) == 0 && size == 0 && err == nil
+//@   ensures[C13] len(b) > 0 && err == nil ==> size == vs
+//@   ensures[C10] len(b) > 0 && b[len(b)-1] == 50 && vs > 0 ==> err == nil && size == vs && result0 == b[len(b)-vs : len(b)-vs+ds]
+//@   ensures[C10] len(b) > 0 && (b[len(b)-1] != 50 || vs < 0) ==> err != nil
+//@   canary[C13] err == nil ==> size <= 300
+
+//@ func DecodeString
+//@   safety[C02]
+//@   let vs = valueSize(mem(b), lo(b), hi(b))
+//@   let m = sizeFieldSize(mem(b), lo(b), hi(b) - 1)
+//@   let ds = varintVal(mem(b), hi(b) - 1, m)
+//@   ensures[C02] 0 <= size && size <= len(b)
+//@   ensures[C02] within(result0, b)
+//@   ensures[C16] len(b) == 0 ==> len(result0) == 0 && size == 0 && err == nil
+//@   ensures[C13] len(b) > 0 && err == nil ==> size == vs
+//@   ensures[C10] len(b) > 0 && b[len(b)-1] == 60 && vs > 0 ==> err == nil && size == vs && result0 == b[len(b)-vs : len(b)-vs+ds]
+//@   ensures[C10] len(b) > 0 && (b[len(b)-1] != 60 || vs < 0) ==> err != nil
+//@   canary[C13] err == nil ==> size <= 300
+
+//@ func DecodeStruct
+//@   safety[C02]
+//@   let vs = valueSize(mem(b), lo(b), hi(b))
+//@   let m = sizeFieldSize(mem(b), lo(b), hi(b) - 1)
+//@   ensures[C02] 0 <= size && size <= len(b)
+//@   ensures[C02] 0 <= dataSize && dataSize <= size
+//@   ensures[C16] len(b) == 0 ==> dataSize == 0 && size == 0 && err == nil
+//@   ensures[C13] len(b) > 0 && err == nil ==> size == vs && dataSize == varintVal(mem(b), hi(b) - 1, m) && size == dataSize + m + 1
+//@   ensures[C13] len(b) > 0 && b[len(b)-1] == 90 && vs > 0 ==> err == nil
+//@   canary[C13] err == nil ==> size <= 300
